@@ -653,12 +653,14 @@ def coherence_partial(time_series, r, csd_method=None):
 
     for i in range(time_series.shape[0]):
         for j in range(i, time_series.shape[0]):
-            f, fxx, frr, frx = get_spectra_bi(time_series[i], r, csd_method)
-            f, fyy, frr, fry = get_spectra_bi(time_series[j], r, csd_method)
+            # The formula needs the cross-spectra f_xr (x relative to r) and
+            # f_ry (r relative to y), so the common cause goes first here:
+            f, fxx, frr, fxr = get_spectra_bi(time_series[i], r, csd_method)
+            f, frr, fyy, fry = get_spectra_bi(r, time_series[j], csd_method)
             c[i, j] = coherence_partial_spec(fxy[i][j],
                                              fxy[i][i],
                                              fxy[j][j],
-                                             frx,
+                                             fxr,
                                              fry,
                                              frr)
 
